@@ -23,20 +23,26 @@ MANIFEST = {
                  'reference table',
     'text': 'Every sequence of length 0..4 (quick) / 0..6 (thorough) over '
             'x in {1,2}, as objects / mappings / (key,object) pairs / '
-            'strings / ints, in a list, tuple, iterator, generator and lazy '
+            'strings / ints / objects mixed with pairs / objects mixed '
+            'with strings, in a list, tuple, iterator, generator and lazy '
             'sequence, with every valid subset of {mapping, no_push_item, '
-            'prefix=p, sort=x, reverse} and with/without a batch window, is '
+            'prefix (p and my_row), sort=x, reverse} and without / with each '
+            'of four batch windows, is '
             'rendered on the real code with a body printing all documented '
             'sequence variables (sequence-* and p_* spellings), the element '
             'attribute, and a probe after the end tag; every printed value '
-            'must equal the value computed from the element position.',
+            'must equal the value computed from the element position; '
+            're-iterable containers are rendered a second time (same '
+            'result), and all nestings of two loops of length 0..3 check '
+            'that the inner loop shadows the outer variables only until '
+            'its end tag.',
     'note': 'Trusted: the positional reference table in this driver (own '
             'roman-numeral routine).  first-x/last-x are asserted for '
             'unbatched runs only; sequence-key for 2-tuples only.',
 }
-RULE = ('all x-patterns of length 0..4 (quick) / 0..6 (thorough) x 5 element '
-        'kinds x 5 containers x valid option subsets x {unbatched, size=2 '
-        'start=2}.  A run is non-trivial when the sequence has at least two '
+RULE = ('all x-patterns of length 0..4 (quick) / 0..6 (thorough) x 7 element '
+        'kinds x 5 containers x valid option subsets x 2 prefix names x '
+        '{unbatched, 4 batch windows}; nested loops 0..3 x 0..3.  A run is non-trivial when the sequence has at least two '
         'elements.')
 ASSUMPTIONS = ['booleans (even/odd/start/end/first-x/last-x) are compared by '
                'truth value through dtml-if',
@@ -64,7 +70,8 @@ def window(batch, n):
     return s - 1, e - 1
 
 
-KINDS = ('obj', 'map', 'pair', 'str', 'int')
+KINDS = ('obj', 'map', 'pair', 'str', 'int', 'mix', 'mixstr')
+PREFIXES = ('p', 'my_row')
 CONTAINERS = ('list', 'tuple', 'iter', 'gen', 'lazy')
 FIXED = ('item', 'key', 'index', 'number', 'letter', 'Letter', 'roman',
          'Roman', 'even', 'odd', 'start', 'end', 'length')
@@ -113,6 +120,12 @@ def elements(kind, xs):
             out.append(('k%d' % i, Elem(i, x)))
         elif kind == 'str':
             out.append('s%d' % i)
+        elif kind == 'mix':
+            # plain objects and (key, object) pairs in one sequence
+            out.append(Elem(i, x) if x == 1 else ('k%d' % i, Elem(i, x)))
+        elif kind == 'mixstr':
+            # objects (pushed) and bare strings (never pushed)
+            out.append(Elem(i, x) if x == 1 else 's%d' % i)
         else:
             out.append(100 + i)
     return out
@@ -134,6 +147,8 @@ def option_sets(kind):
     opts = ['no_push_item', 'prefix', 'reverse']
     if kind in ('obj', 'map', 'pair'):
         opts.append('sort')
+    if kind in ('mix', 'mixstr'):
+        opts.remove('reverse')
     for k in range(len(opts) + 1):
         for sub in itertools.combinations(opts, k):
             yield list(sub)
@@ -146,16 +161,17 @@ def cases(tier):
             for opts in option_sets(kind):
                 for batch in range(len(BATCHES)):
                     for n in range(0, maxn + 1):
-                        yield {'kind': kind, 'cont': cont, 'opts': opts,
-                               'batch': batch, 'n': n}
+                        for pn in (PREFIXES if 'prefix' in opts else ('p',)):
+                            yield {'kind': kind, 'cont': cont, 'opts': opts,
+                                   'batch': batch, 'n': n, 'pname': pn}
     for cont in CONTAINERS:
         for na in range(0, 4):
             for nb in range(0, 4):
                 yield {'nested': 1, 'cont': cont, 'na': na, 'nb': nb}
 
 
-def body_source(kind, opts, batch):
-    has_x = kind in ('obj', 'map', 'pair')
+def body_source(kind, opts, batch, pname='p'):
+    has_x = kind in ('obj', 'map', 'pair', 'mix')
     cells = []
 
     def var(name):
@@ -164,7 +180,7 @@ def body_source(kind, opts, batch):
     def boolean(name):
         cells.append('<dtml-if %s>1<dtml-else>0</dtml-if>' % name)
 
-    for pre in (['sequence-'] + (['p_'] if 'prefix' in opts else [])):
+    for pre in (['sequence-'] + ([pname + '_'] if 'prefix' in opts else [])):
         for f in FIXED:
             if f == 'key' and kind != 'pair':
                 continue
@@ -182,8 +198,8 @@ def body_source(kind, opts, batch):
 _t = {}
 
 
-def template(kind, opts, batch):
-    key = (kind, tuple(opts), batch)
+def template(kind, opts, batch, pname='p'):
+    key = (kind, tuple(opts), batch, pname)
     t = _t.get(key)
     if t is None:
         from DocumentTemplate import HTML
@@ -191,14 +207,16 @@ def template(kind, opts, batch):
         if kind == 'map':
             attrs.append('mapping')
         for o in opts:
-            attrs.append({'prefix': 'prefix=p', 'sort': 'sort=x'}.get(o, o))
+            attrs.append({'prefix': 'prefix=' + pname,
+                          'sort': 'sort=x'}.get(o, o))
         if batch:
             attrs.append(BATCHES[batch][0])
         src = ('<<dtml-in seq %s>%s<dtml-else>EMPTY</dtml-in>>'
                '{<dtml-var x missing="-">,<dtml-var sequence-index '
-               'missing="-">,<dtml-var p_index missing="-">,'
+               'missing="-">,<dtml-var %s_index missing="-">,'
                '<dtml-var sequence-item missing="-">}'
-               % (' '.join(attrs), body_source(kind, opts, batch)))
+               % (' '.join(attrs), body_source(kind, opts, batch, pname),
+                  pname))
         t = _t[key] = HTML(src)
     return t
 
@@ -217,14 +235,14 @@ def expected(kind, opts, batch, xs):
     seq = [items[i] for i in order]
     sx = [xs[i] for i in order]
     first, last = window(batch, n)
-    has_x = kind in ('obj', 'map', 'pair')
-    pushed = has_x and 'no_push_item' not in opts
+    has_x = kind in ('obj', 'map', 'pair', 'mix')
     rows = []
     for i in range(first, last + 1):
         it = seq[i]
         key = None
-        if kind == 'pair':
+        if isinstance(it, tuple):
             key, it = it
+        pushed = isinstance(it, (Elem, dict)) and 'no_push_item' not in opts
         fixed = {
             'item': str(it), 'key': key, 'index': str(i),
             'number': str(i + 1), 'letter': chr(97 + i),
@@ -262,7 +280,7 @@ def first_difference(got, exp, kind, opts, batch):
             if f == 'key' and kind != 'pair':
                 continue
             names.append(pre + f)
-    if kind in ('obj', 'map', 'pair'):
+    if kind in ('obj', 'map', 'pair', 'mix'):
         names.append('sequence-var-x')
         if not batch:
             names += ['first-x', 'last-x']
@@ -284,7 +302,7 @@ def one(res, case, xs):
                                case['batch'])
     seq = container(cont, elements(kind, xs))
     try:
-        got = template(kind, opts, batch)(seq=seq)
+        got = template(kind, opts, batch, case.get('pname', 'p'))(seq=seq)
     except Exception as e:
         got = e
     exp = expected(kind, opts, batch, xs)
@@ -293,7 +311,7 @@ def one(res, case, xs):
         # order (a tag that consumed or reordered the caller's sequence
         # shows up here)
         try:
-            again = template(kind, opts, batch)(seq=seq)
+            again = template(kind, opts, batch, case.get('pname', 'p'))(seq=seq)
         except Exception as e:
             again = e
         if again != exp:
@@ -371,7 +389,7 @@ def run(case):
         res.nontrivial = True
         return res
     n = case['n']
-    has_x = case['kind'] in ('obj', 'map', 'pair')
+    has_x = case['kind'] in ('obj', 'map', 'pair', 'mix', 'mixstr')
     pats = itertools.product((1, 2), repeat=n) if has_x else [(1,) * n]
     ev = nt = 0
     for xs in pats:
